@@ -604,9 +604,19 @@ fn stream_use(rep: &mut Report, drv: &mut Driver, rng: &mut Rng, n: usize) -> Re
         let k = sib.len();
         let mut order: Vec<usize> = (0..k).collect();
         shuffle(rng, &mut order);
-        let doc: Vec<X> = order.iter().map(|&i| sib[i].clone()).collect();
+        // one document in three starts with a <defaults> block (not permuted: it stands before all of them)
+        // whose entries augment transform / style - attributes that are appended to, so applying the
+        // defaults once per ATTEMPT instead of once per element would show in the geometry
+        let head: Vec<X> = if rng.chance(1, 3) {
+            vec![X::node("defaults", &[], vec![
+                X::leaf("rect", &[("transform", *rng.pick(&["translate(7, -3)", "translate(2 2)", "scale(2)"])), ("style", "opacity: 0.5")]),
+                X::leaf("_", &[("match", ".big"), ("rx", "1")]),
+            ])]
+        } else { vec![] };
+        let doc: Vec<X> = head.iter().cloned().chain(order.iter().map(|&i| sib[i].clone())).collect();
         let xml = doc_xml(&doc);
         corr.case(&xml, true, || json!({"document": xml}));
+        if !head.is_empty() { corr.tally("with-defaults"); }
         let imp = run_impl(&xml, lim);
         let mdl = run_model(drv, &doc, lim)?;
         corr.tally(&format!("impl={}", imp.status));
@@ -620,7 +630,7 @@ fn stream_use(rep: &mut Report, drv: &mut Driver, rng: &mut Rng, n: usize) -> Re
         let mut base: Option<(String, BTreeMap<String, String>)> = None;
         let mut bad = None;
         for o in all_perms(k).into_iter().take(120) {
-            let d: Vec<X> = o.iter().map(|&i| sib[i].clone()).collect();
+            let d: Vec<X> = head.iter().cloned().chain(o.iter().map(|&i| sib[i].clone())).collect();
             let x = doc_xml(&d);
             let r = run_impl(&x, lim);
             if r.status != "ok" {
